@@ -1,5 +1,6 @@
 import Spdc.Model.Units
 import Spdc.Model.Index
+import Spdc.Model.NM1D
 /-!
 # M4 — `Beam` state machine, Snell conversions (mirrors `src/beam/mod.rs`)
 
@@ -45,7 +46,7 @@ deriving Repr
 
 section
 variable {α : Type} [Add α] [Sub α] [Mul α] [Div α] [Neg α] [OfScientific α] [LT α]
-  [DecidableLT α] [BEq α] [Transc α] [FMod α]
+  [DecidableLT α] [LE α] [DecidableLE α] [BEq α] [Transc α] [FMod α]
 
 /-- `Unit::new_normalize` : `v / ‖v‖` with `‖v‖ = sqrt(0 + x² + y² + z²)` -/
 def normalize (v : Vec3 α) : Vec3 α :=
@@ -115,6 +116,25 @@ def snellCost (n : Vec3 α) (cθ cφ : α) (φ : α) (pol : Pol) (external inter
   let dir := directionFromPolar φ internal
   let idx := indexAlong n cθ cφ dir pol
   Transc.abs (Transc.sin external - idx * Transc.sin internal)
+
+/-- an `f64` cost value as argmin's comparisons see it (`NaN ≠ NaN`; `x − x ≠ 0` for `±∞`) -/
+def toCost (x : α) : NM1D.Cost α :=
+  if !(x == x) then .nan else if isFinite x then .fin x else .inf
+
+/-- `f64::signum` (`+0.0 ↦ 1`, `−0.0 ↦ −1`, NaN ↦ NaN) -/
+def signum (x : α) : α :=
+  if !(x == x) then x
+  else if x < (0.0 : α) then -(1.0 : α)
+  else if x == (0.0 : α) && (1.0 : α) / x < (0.0 : α) then -(1.0 : α)
+  else (1.0 : α)
+
+/-- `Beam::calc_internal_theta_from_external` : `sign(guess) · nelder_mead_1d(curve, (guess, guess+1),
+100, 0, π/2, 1e-12)` with `guess = external` and `curve = snellCost` -/
+def snellInternal (n : Vec3 α) (cθ cφ : α) (φ : α) (pol : Pol) (external : α) : Outcome α :=
+  let guess := external
+  let sign := signum guess
+  (NM1D.run (fun t => toCost (snellCost n cθ cφ φ pol external t)) guess (guess + (1.0 : α)) 100
+    (0.0 : α) halfPi (1e-12 : α)).map fun θ => sign * θ
 
 /-- `Beam::wavevector` direction·(n·ω/c) with the index passed in -/
 def wavevector (b : Beam α) (ω idx : α) : Vec3 α :=
